@@ -549,9 +549,10 @@ class Queue(Greenlet):
         while True:
             self.queued_lock.acquire()
             try:
-                now = time.time()
-                self._check_ready(now)
-                self._wait_ready(now)
+                self._check_ready(time.time())
+                # Starting the due messages may have taken a while (a full
+                # store pool): sleep by the clock as it is now.
+                self._wait_ready(time.time())
             finally:
                 self.queued_lock.release()
             # Give a flush() waiting for the lock the chance to take it.
